@@ -214,6 +214,7 @@ func (e *Enc) needStr() {
 }
 
 func (e *Enc) needScat() {
+	e.usedTrusted["axioms: strings as an uninterpreted sort with length, bytes, concatenation and slicing (algebraic facts in govc/enc.go)"] = true
 	e.needStr()
 	I := e.M.smtSort(SI)
 	e.prelude("scat", "(declare-fun scat (Str Str) Str)\n"+
@@ -338,6 +339,7 @@ func (e *Enc) typeFactsRec(t types.Type, L []string, st *State, fs *[]string) in
 			// a struct type that is never stored by value inside another object: a pointer to it points at the start
 			// of an allocation of exactly that type, so pointers to different such types never overlap
 			e.prelude("atype", "(declare-fun atype ("+m.smtSort(SI)+") "+m.smtSort(SI)+")")
+			e.assumptions["typed allocations: a struct type that no loaded package stores by value inside another value is only ever pointed at as a whole allocation (no unsafe pointer arithmetic)"] = true
 			*fs = append(*fs, implies(not(eq(L[0], z)), and(eq(L[1], z), eq("(atype "+L[0]+")", m.ilit(int64(id))))))
 		}
 		return 2
@@ -410,6 +412,7 @@ func isStringsBuilder(t types.Type) bool {
 // starts a rune >= 0x80 of width 1..4 all of whose bytes are >= 0x80; a valid encoding is reproduced by runestr; an
 // invalid byte decodes to (RuneError, 1), and runestr(RuneError) is the three bytes EF BF BD.
 func (e *Enc) needUTF8() {
+	e.usedTrusted["axioms: unicode/utf8 decoding and encoding facts (utf8r, utf8w, utf8valid, runestr; see needUTF8 in govc/enc.go)"] = true
 	e.needStr()
 	e.needSsub()
 	m := e.M
